@@ -373,7 +373,7 @@ def assetLoop (remain : Coins) (L re : Nat) : List Lock â†’ Tracker â†’ Coins â†
     else assetLoop remain L re ls (tr.addReward l.owner c) (Coins.add tot c)
 
 /-- remaining epochs of a gauge: 1 for perpetual gauges, else `NumEpochsPaidOver - FilledEpochs`
-    (uint64: wraps when filled > numEpochs, which is unreachable) -/
+    (uint64: wraps when filled > numEpochs; a gauge leaves the active list once filled+1 â‰¥ numEpochs) -/
 def remainEpochs (g : Gauge) : Nat :=
   if g.perpetual then 1
   else if g.filled â‰¤ g.numEpochs then g.numEpochs - g.filled else g.numEpochs + 18446744073709551616 - g.filled
